@@ -61,7 +61,7 @@ class Prop(PropBase):
         quick = tier == "quick"
         for _ in range(450 if quick else 12000):
             yield {"op": "one", "cls": rng.choice(sigs.CLASSES), "call": rng.choice(OPS),
-                   "layout": rng.choice(["contig", "strided", "readonly", "fortran", "shared"]),
+                   "layout": rng.choice(["contig", "strided", "readonly", "fortran", "shared", "nonfinite"]),
                    "seed": rng.randrange(1 << 30)}
         for _ in range(60 if quick else 1500):
             yield {"op": "history", "cls": rng.choice(sigs.CLASSES[1:]),
@@ -115,6 +115,11 @@ class Prop(PropBase):
             data = np.asfortranarray(big[:L])
         else:
             data = np.ascontiguousarray(big[:L]) if base is None else big[:L]
+        if layout == "nonfinite":
+            # a few NaN / infinite samples (flagged data): "cleaning" them must not happen in the caller's buffer
+            data[1, ...] = np.nan
+            data[3, ...] = np.inf
+            data[5, ...] = -np.inf
         if layout == "readonly":
             data.flags.writeable = False
         kw = {"pol_type": "circular"} if cls == "DualPolarizationSignal" else {}
